@@ -335,6 +335,25 @@ def classify_part(p, part, nparts, thorough):
                 k: (list(v) if isinstance(v, tuple) else v)
                 for k, v in got.items()}})
     p.counters.update({'kind:' + k: 1 for k in kinds})
+    # classification is a function of the name alone: classify again in the
+    # opposite order (whatever the process classified before) and compare
+    mine = [n for i, n in enumerate(all_names(thorough))
+            if i % nparts == part]
+    first = {}
+    for order in (mine, list(reversed(mine))):
+        for name in order:
+            try:
+                k = type(B.branch_factory(repo, name)).__name__
+            except X.UnrecognizedBranchPattern:
+                k = None
+            p.evaluations += 1
+            if name in first and first[name] != k:
+                p.mismatch('order-dependent:%s' % name,
+                           'branch_factory(%r) is %s or %s depending on '
+                           'what was classified before' % (name,
+                                                           first[name], k),
+                           {'name': name})
+            first.setdefault(name, k)
 
 
 DST_SETS = [
